@@ -4,6 +4,7 @@ use std::fmt::Write as _;
 
 pub mod c01;
 pub mod c02;
+pub mod c03;
 pub mod c04;
 pub mod c09;
 pub mod c15;
